@@ -73,7 +73,7 @@ def _case(draw, tier):
     def cond_on_p():
         return leaf(draw, ctx, [0])
 
-    kind = draw(st.sampled_from(["none", "none", "on_e", "on_e", "on_p", "both"] + (["third"] if third else [])))
+    kind = draw(st.sampled_from(["none", "none", "on_e", "on_e", "on_p", "both"] + (["third"] * 6 if third else [])))
     if kind == "none":
         cond = None
     elif kind == "on_e":
